@@ -69,7 +69,7 @@ func c03Copy(v interface{}) interface{} {
 // ok=false: the delta contains something JSON cannot carry in the documented format.
 func c03JSONNorm(d interface{}, inOrder bool) (interface{}, bool) {
 	switch d := d.(type) {
-	case nil, bool, int, string:
+	case nil, bool, int, int64, string:
 		if i, isInt := d.(int); isInt && inOrder {
 			return float64(i), true
 		}
